@@ -7,6 +7,7 @@ import (
 	"go/types"
 	"reflect"
 	"regexp"
+	"strconv"
 	"time"
 )
 
@@ -53,6 +54,10 @@ func (e *Engine) nativeOf(v Value) (interface{}, bool) {
 					continue
 				}
 				ks, ok := k.(Str)
+				if ik, isInt := k.(Int); isInt && ik.T == nil {
+					// encoding/json writes integer keys as strings and sorts the strings
+					ks, ok = Str{S: strconv.FormatInt(signExt(ik.V, ik.W), 10)}, true
+				}
 				if !ok || !ks.isC() {
 					return nil, false
 				}
